@@ -43,6 +43,15 @@ func NewHMACAuth(secrets [][]byte) *HMACAuth {
 	return a
 }
 
+// InheritReplayState makes a share prev's nonce cache, so that nonces honoured
+// before a configuration reload are still rejected afterwards.
+func (a *HMACAuth) InheritReplayState(prev *HMACAuth) {
+	if a == nil || prev == nil || prev.nonce == nil {
+		return
+	}
+	a.nonce = prev.nonce
+}
+
 // Verify checks:
 // - timestamp header is present and within tolerance
 // - nonce header is present and not reused within tolerance window
